@@ -60,9 +60,9 @@ RulesC03 ==
 AliasesC03 == IF Big
   THEN {"beacon", "document", "main_frame", "font", "image", "imageset", "media", "object",
         "object_subrequest", "ping", "script", "stylesheet", "sub_frame", "subdocument", "websocket",
-        "xhr", "xmlhttprequest", "other", "speculative", "web_manifest", "xbl", "xml_dtd", "xslt", "foo"}
+        "xhr", "xmlhttprequest", "other", "speculative", "web_manifest", "xbl", "xml_dtd", "xslt", "foo", "csp_report"}
   ELSE {"beacon", "document", "main_frame", "font", "image", "media", "object", "ping", "script",
-        "stylesheet", "sub_frame", "websocket", "xhr", "other", "foo"}
+        "stylesheet", "sub_frame", "websocket", "xhr", "other", "foo", "csp_report"}
 ReqsC03 == SetToSeqD(
   { MkReq(sc, "ab.com", "/ab?ab=1", al, src) :
       sc \in {"https", "http", "ws", "wss", "ftp"}, al \in AliasesC03,
@@ -209,6 +209,40 @@ ReqsC05 == <<
 >>
 
 --------------------------------------------------------------------------
+\* universe c08: one rule per rule shape (every option bit, every modifier, tag, domain lists,
+\* hostname anchors, regex-ness); each exported case is also executed on an engine reloaded
+\* from the serialized image of the first (C08) -- the wire format must preserve every field
+PoolC08 == <<
+  W("/ab-"), [W("/ab^") EXCEPT !.right = TRUE], [W("https://ab.ba/ab") EXCEPT !.left = "pipe"],
+  [W("ab.ba/ab*a") EXCEPT !.left = "dpipe"], [W("ab.ba^") EXCEPT !.left = "dpipe"], [W("ba*/ab") EXCEPT !.left = "dpipe"],
+  [W("/ab-") EXCEPT !.exc = TRUE], [W("/ab_") EXCEPT !.important = TRUE],
+  [W("/ab-") EXCEPT !.pos = {"image"}], [W("/ab-") EXCEPT !.neg = {"image", "script"}], [W("/ab_") EXCEPT !.pos = {"document", "font"}],
+  [W("/ab-") EXCEPT !.party = "3p"], [W("/ab_") EXCEPT !.party = "1p"],
+  [W("/ab-") EXCEPT !.dom = {"ba.com", "abb.com"}], [W("/ab_") EXCEPT !.ndom = {"ba.com"}],
+  [W("/ab.") EXCEPT !.dom = {"ba.com"}, !.ndom = {"s.ba.com"}],
+  [W("/ab-") EXCEPT !.tag = "t1"], [W("/ab_") EXCEPT !.exc = TRUE, !.tag = "t2"], [W("/ab.") EXCEPT !.important = TRUE, !.tag = "t1"],
+  [W("ab.ba^") EXCEPT !.left = "dpipe", !.mkind = "redirect", !.mval = "r1", !.prio = "10"],
+  [W("/ab-") EXCEPT !.mkind = "redirect-rule", !.mval = "r2"],
+  [W("ab.ba^") EXCEPT !.left = "dpipe", !.exc = TRUE, !.mkind = "redirect", !.mval = "r1"],
+  [W("ab.ba^") EXCEPT !.left = "dpipe", !.mkind = "csp", !.mval = "d1"],
+  [W("ab.ba^") EXCEPT !.left = "dpipe", !.mkind = "csp", !.mval = "d2", !.tag = "t1"],
+  [W("ab.ba^") EXCEPT !.left = "dpipe", !.mkind = "csp", !.mval = "", !.exc = TRUE, !.dom = {"ba.com"}],
+  [W("ab.ba^") EXCEPT !.left = "dpipe", !.mkind = "removeparam", !.mval = "ab"],
+  [W("http://") EXCEPT !.left = "pipe"], [W("/ab-") EXCEPT !.badfilter = TRUE],
+  [W("a") EXCEPT !.pos = {"script"}, !.dom = {"ba.com", "abb.com"}]
+>>
+ReqsC08 == <<
+  MkReq("https", "ab.ba", "/ab-", "script", "x.com"),
+  MkReq("https", "ab.ba", "/ab_", "image", "ab.ba"),
+  MkReq("https", "ab.ba", "/ab.", "script", "ba.com"),
+  MkReq("https", "ab.ba", "/ab", "font", "s.ba.com"),
+  MkReq("http", "x.com", "/ab-?ab=1&ba=2", "xhr", "abb.com"),
+  MkReq("https", "ab.ba", "/?ab=1", "document", "ba.com"),
+  MkReq("https", "s.ab.ba", "/ab/ab-a", "sub_frame", "x.com"),
+  MkReq("https", "xba.com", "/x/ab", "script", "")
+>>
+
+--------------------------------------------------------------------------
 \* universe c13: redirects
 RD(kind, res, pr) == [R0 EXCEPT !.left = "dpipe", !.body = B("ab.ba^"), !.mkind = kind, !.mval = res, !.prio = pr]
 PoolC13 == SetToSeqD(
@@ -226,12 +260,18 @@ ReqsC13 == <<
   MkReq("https", "ab.ba", "/x", "image", "ab.ba"),
   MkReq("https", "x.com", "/ab", "script", "x.com")
 >>
-ResC13 == {
-  [name |-> "r1", aliases |-> {"al1"}, redirectable |-> TRUE, perm |-> 0, kind |-> "text/plain"],
-  [name |-> "r2", aliases |-> {}, redirectable |-> TRUE, perm |-> 0, kind |-> "application/javascript"],
-  [name |-> "tpl", aliases |-> {}, redirectable |-> FALSE, perm |-> 0, kind |-> "template"],
-  [name |-> "fnjs", aliases |-> {}, redirectable |-> FALSE, perm |-> 0, kind |-> "fn/javascript"],
-  [name |-> "perm", aliases |-> {}, redirectable |-> TRUE, perm |-> 1, kind |-> "text/plain"] }
+\* resources in the order they are added; the last two collide with earlier names/aliases and
+\* must be rejected (their content differs, so serving them would be visible)
+ResSeqC13 == <<
+  [name |-> "r1", aliases |-> {"al1"}, redirectable |-> TRUE, perm |-> 0, kind |-> "text/plain", content |-> "r1"],
+  [name |-> "r2", aliases |-> {}, redirectable |-> TRUE, perm |-> 0, kind |-> "application/javascript", content |-> "r2"],
+  [name |-> "tpl", aliases |-> {}, redirectable |-> FALSE, perm |-> 0, kind |-> "template", content |-> "tpl"],
+  [name |-> "fnjs", aliases |-> {}, redirectable |-> FALSE, perm |-> 0, kind |-> "fn/javascript", content |-> "fnjs"],
+  [name |-> "perm", aliases |-> {}, redirectable |-> TRUE, perm |-> 1, kind |-> "text/plain", content |-> "perm"],
+  [name |-> "al1", aliases |-> {}, redirectable |-> TRUE, perm |-> 0, kind |-> "text/plain", content |-> "late-al1"],
+  [name |-> "zz", aliases |-> {"r2"}, redirectable |-> TRUE, perm |-> 0, kind |-> "text/plain", content |-> "late-zz"]
+>>
+ResC13 == EffectiveStore(ResSeqC13)
 
 --------------------------------------------------------------------------
 \* universe c14: removeparam
@@ -244,9 +284,16 @@ PoolC14 == <<
 QueryShapes == {"", "?", "?a=1", "?a=", "?a", "?=1", "?a=1&b=2", "?b=2&a=1", "?a=1&a=3", "?a=x=y", "?a=1&&b=2",
                 "?&a=1", "?a=1&", "?b&a=1", "?ab=1&a=2", "?A=1", "?a=1&b=", "?c=3", "?a=%20", "?b=2&c=3&a=1"}
 FragShapes == {"", "#f", "#f?a=1", "#", "#a=1&b=2"}
+\* the URL text may be spelled in a non-normalised way (upper-case scheme); the rewrite must keep it
+MkReqU(schemeText, scheme, host, path, alias, src) ==
+  LET r == MkReq(scheme, host, path, alias, src) IN
+  [r EXCEPT !.url = Chars(schemeText) \o SubSeq(r.url, Len(Chars(scheme)) + 1, Len(r.url))]
 ReqsC14 == SetToSeqD(
   { MkReq("https", "ab.ba", "/p" \o qs \o fr, al, "x.com") :
       qs \in QueryShapes, fr \in FragShapes, al \in {"xhr", "image"} })
+  \o << MkReqU("HTTPS", "https", "ab.ba", "/p?a=1&b=2", "document", ""),
+        MkReqU("HTTPS", "https", "ab.ba", "/P?a=1&B=2#F", "xhr", "x.com"),
+        MkReq("https", "ab.ba", "/p?b=2&a=1", "document", "") >>
 
 --------------------------------------------------------------------------
 \* universe c15: csp
@@ -265,12 +312,12 @@ ReqsC15 == SetToSeqD(
       src \in {"ab.ba", "x.com", "ba.com", ""} })
 
 --------------------------------------------------------------------------
-Pool == CASE U = "c01" -> PoolC01 [] U = "c01d" -> PoolC01d [] U = "c07" -> PoolC07 [] U = "c04b" -> PoolC04b [] U = "c05" -> PoolC05 [] U = "c13" -> PoolC13 [] U = "c14" -> PoolC14
+Pool == CASE U = "c01" -> PoolC01 [] U = "c01d" -> PoolC01d [] U = "c07" -> PoolC07 [] U = "c04b" -> PoolC04b [] U = "c05" -> PoolC05 [] U = "c08" -> PoolC08 [] U = "c13" -> PoolC13 [] U = "c14" -> PoolC14
           [] U = "c15" -> PoolC15 [] OTHER -> <<>>
-Reqs == CASE U = "c03" -> ReqsC03 [] U = "c01" -> ReqsC01 [] U = "c01d" -> ReqsC01d [] U = "c07" -> ReqsC07 [] U = "c04b" -> ReqsC04b [] U = "c05" -> ReqsC05 [] U = "c13" -> ReqsC13
+Reqs == CASE U = "c03" -> ReqsC03 [] U = "c01" -> ReqsC01 [] U = "c01d" -> ReqsC01d [] U = "c07" -> ReqsC07 [] U = "c04b" -> ReqsC04b [] U = "c05" -> ReqsC05 [] U = "c08" -> ReqsC08 [] U = "c13" -> ReqsC13
           [] U = "c14" -> ReqsC14 [] U = "c15" -> ReqsC15
-Res == IF U \in {"c13", "c01", "c04b", "c05"} THEN ResC13 ELSE {}
-Tags == IF U \in {"c01", "c01d", "c07", "c15", "c04b", "c05"} THEN {"t1", "t2"} ELSE {}
+Res == IF U \in {"c13", "c01", "c04b", "c05", "c08"} THEN ResC13 ELSE {}
+Tags == IF U \in {"c01", "c01d", "c07", "c15", "c04b", "c05", "c08"} THEN {"t1", "t2"} ELSE {}
 
 \* increasing index sequences of length <= K over 1..n
 RECURSIVE IncSeqs(_, _, _)
@@ -328,12 +375,22 @@ CaseRecord(f) ==
       mc == [q \in DOMAIN Reqs |-> IdealCspH(L, T, Reqs[q], [i \in DOMAIN L |-> EngineHits(f, i, q)])]
       \* attribution data only where the model leaves the Ideal
       devq == {q \in DOMAIN Reqs : ~(mv[q] \subseteq iv[q]) \/ ~(mc[q] \subseteq ic[q])}
-      base == [k |-> "net", u |-> U, mono |-> (U \in {"c01", "c01d", "c05"}), rules |-> [i \in DOMAIN L |-> RuleText(L[i])], tags |-> T,
+      \* Wire (v0 format): the removeparam list is not part of the image (named deviation
+      \* wireDropsRemoveparam): the model of a reloaded engine is the list without those rules
+      keepIdx == SelectSeq([i \in DOMAIN L |-> i], LAMBDA i : L[i].mkind # "removeparam")
+      Lw == [j \in DOMAIN keepIdx |-> L[keepIdx[j]]]
+      mvw == [q \in DOMAIN Reqs |-> IdealVerdictsH(Lw, T, Res, Reqs[q], [j \in DOMAIN keepIdx |-> EngineHits(f, keepIdx[j], q)])]
+      base0 == [k |-> "net", u |-> U, mono |-> (U \in {"c01", "c01d", "c05"}), rules |-> [i \in DOMAIN L |-> RuleText(L[i])], tags |-> T,
                v |-> iv, csp |-> ic,
                dev |-> SetToSeqD({ [q |-> q, names |-> UNION {DevHit(L[i], Reqs[q]) : i \in DOMAIN L}, mv |-> mv[q], mcsp |-> mc[q]] : q \in devq })]
       mh == [q \in DOMAIN Reqs |-> [i \in DOMAIN L |->
                IF Supported(Reqs[q]) THEN f[q][i].ideal ELSE {TRUE, FALSE}]]
       hd == {p \in (DOMAIN Reqs) \X (DOMAIN L) : f[p[1]][p[2]].impl \notin mh[p[1]][p[2]]}
+      base == IF U = "c08"
+              THEN base0 @@ [reload |-> TRUE,
+                             wire |-> IF Len(keepIdx) = Len(L) THEN <<>>
+                                      ELSE << [names |-> {"wireDropsRemoveparam"}, mv |-> mvw] >>]
+              ELSE base0
   IN IF U = "c03"
      THEN base @@ [hits |-> mh,
                    hdev |-> SetToSeqD({ [q |-> p[1], i |-> p[2], names |-> DevHit(L[p[2]], Reqs[p[1]]),
@@ -375,5 +432,5 @@ ASSUME PrintT(ToJson([k |-> "universe", u |-> U,
          reqs |-> [q \in DOMAIN Reqs |->
                      [url |-> Str(Reqs[q].url), alias |-> Reqs[q].alias,
                       src |-> IF Len(Reqs[q].src) = 0 THEN "" ELSE "https://" \o Str(Reqs[q].src) \o "/"]],
-         res |-> SetToSeqD(Res)]))
+         res |-> IF Res = {} THEN <<>> ELSE ResSeqC13]))
 =============================================================================
